@@ -581,7 +581,7 @@ def resolve_bottom_up(ctx):
         tys = {f['name']: f['ty'].replace('crate::', 'pie::') for f in a['variants'][0]['fields']}
         sets = [n for n, t in tys.items() if t.startswith('std::collections::HashSet<%s' % roles.task_node)]
         vecs = [n for n, t in tys.items() if t.startswith('std::vec::Vec<%s' % roles.task_node)]
-        if len(sets) == 1 and len(vecs) == 1 and len(tys) == 2:
+        if len(sets) == 1 and len(vecs) == 1:
             qadt = p
             r['q_set'], r['q_vec'] = sets[0], vecs[0]
     r['queue_adt'] = qadt
@@ -861,6 +861,35 @@ def _loop_feeds_try_sched(ctx, body, qcall, bu, rule):
          else 'some dependency found by the query is not passed to the scheduling test', ctx.where(body, qcall.bb), props=('C03',))
 
 
+def _through_tuple_aggr(body, F, origins):
+    return origins
+
+
+def _raw_arg0_calls(body, call):
+    """origin calls of the first argument of `call`, without the identity shortcuts (adaptor chains)"""
+    if not call.args or call.args[0][0] not in ('c', 'm'):
+        return []
+    l = call.args[0][1][0]
+    out = []
+    seen = set()
+    work = [l]
+    while work:
+        x = work.pop()
+        if x in seen:
+            continue
+        seen.add(x)
+        for d in body.defs.get(x, []):
+            if d[0] == 'call':
+                out.append(type('O', (), {'key': d[1]})())
+            elif d[0] == 'stmt' and d[3]['k'] in ('use', 'cast'):
+                op = body.facts.operand(d[3]['op'])
+                if op[0] in ('c', 'm'):
+                    work.append(op[1][0])
+            elif d[0] == 'stmt' and d[3]['k'] in ('ref', 'rawptr'):
+                work.append(d[3]['pl']['l'])
+    return out
+
+
 def rule_queue(ctx):
     R, roles, F = ctx.R, ctx.roles, ctx.F
     bu = getattr(ctx, 'bu', None) or resolve_bottom_up(ctx)
@@ -952,6 +981,65 @@ def rule_queue(ctx):
                     so = b.orig_operand(s.args[1])
                     good = ro == so
                     R.ob('Q3-same-node', key, good, 'the node returned is the node removed' if good else 'returned %s but removed %s from the set' % (b.describe_origins(ro), b.describe_origins(so)), ctx.where(b, d[1]), props=P)
+    # Q3-index: an index used to remove from the vector is the element's position in the vector
+    for name in ('q_pop', 'q_pop_least'):
+        b = bu[name]
+        for r0 in b.find_calls(lambda c: c.qname in ('std::vec::Vec::remove', 'std::vec::Vec::swap_remove') and ctx.has_field(b.orig_operand(c.args[0]), vec_f)):
+            io = b.orig_operand(r0.args[1])
+            if all(o.kind == 'const' for o in io):
+                continue
+            nxs = [b.calls[o.key] for o in _through_tuple_aggr(b, F, io) if o.kind == 'call' and b.calls[o.key].name == 'next']
+            good = False
+            why = 'the removal index does not come from an enumeration of the vector'
+            if nxs:
+                # walk the adaptor chain from the scan back to the vector
+                chain = []
+                cur = nxs[0]
+                seen_ = set()
+                while cur is not None and cur.bb not in seen_:
+                    seen_.add(cur.bb)
+                    chain.append(cur.qname)
+                    prev = [b.calls[o.key] for o in _raw_arg0_calls(b, cur)]
+                    cur = prev[0] if prev else None
+                names = [q.split('::')[-1] for q in chain]
+                if 'enumerate' in names:
+                    inner = names[names.index('enumerate') + 1:]  # adaptors applied before enumerate
+                    good = not any(x in ('rev', 'skip', 'filter', 'filter_map', 'step_by', 'skip_while', 'chain', 'zip') for x in inner)
+                    why = 'the index comes from an enumeration applied after %s: it is not the position in the vector' % [x for x in inner if x in ('rev', 'skip', 'filter', 'filter_map', 'step_by')]
+            R.ob('Q3-index', b.path, good, 'the index used for removal is the position of the selected element in the vector' if good else why, ctx.where(b, r0.bb), props=P)
+    # Q1-sort-always: the sort helper sorts on every path, or skips only under a dirty flag that every order-disturbing mutation sets
+    inf = ctx.infeasible(srt)
+    sb = {c.bb for c in srt.find_calls(lambda c: c.qname in SORT_FNS)}
+    seen = srt.reach([0], avoid=ctx.both(inf, lambda n: n in sb))
+    skips = [r for r in srt.returns() if r in seen]
+    if not skips:
+        R.ob('Q1-sort-always', srt.path, True, 'the sort helper sorts on every path', ctx.where(srt), props=P)
+    else:
+        flags = set()
+        for (bb, k), gd in srt.guards.items():
+            if gd.kind == 'bool' and ('e', bb, k) in seen:
+                for o in gd.origins:
+                    if o.kind == 'arg' and o.key == 1:
+                        flags |= {p[1] for p in o.path if isinstance(p, tuple) and p[0] == 'f'}
+        ok = len(flags) == 1
+        why = 'the sort can be skipped without a dirty flag of the queue deciding it'
+        if ok:
+            fl = next(iter(flags))
+            qm = [x for x in F.bodies.values() if x.kind == 'AssocFn' and x.impl_self and type_head(x.impl_self) == bu['queue_adt'] and not x.impl_trait]
+            for x in qm:
+                for c in x.find_calls(lambda c: c.qname in ('std::vec::Vec::push', 'std::vec::Vec::swap_remove', 'std::vec::Vec::insert', 'std::vec::Vec::extend', 'std::vec::Vec::append')
+                                      and ctx.has_field(x.orig_operand(c.args[0]), vec_f)):
+                    sets_flag = set()
+                    for (sbb, si, pl, rv, ln) in x.stores:
+                        if ctx.has_field(x.orig_place(pl), fl) and rv['k'] == 'use' and 'k' in rv['op'] and rv['op']['k'].get('int') == '1':
+                            sets_flag.add(sbb)
+                    xinf = ctx.infeasible(x)
+                    before = x.must_before(c.bb, ctx.both(xinf, lambda n: n in sets_flag)) is None
+                    after = x.must_after(c.bb, ctx.both(xinf, lambda n: n in sets_flag)) is None
+                    if not (before or after):
+                        ok = False
+                        why = '%s disturbs the order of the vector (%s) without marking it as needing a sort, while the sort is skipped when the flag `%s` is clear' % (x.name, c.name, fl)
+        R.ob('Q1-sort-always', srt.path, ok, 'the sort is skipped only under a dirty flag that every order-disturbing mutation sets' if ok else why, ctx.where(srt), props=P)
     # Q4: candidate test orientation in pop_least
     b = bu['q_pop_least']
     ts = [c for c in b.calls.values() if is_callee(ctx, c, roles.trans_req)]
